@@ -18,6 +18,9 @@ for p in props:
     else:
         na.append({"property_id":pid,"reason":t.get('not_applicable','check not built yet (work in progress; see DESIGN.md)')})
 m['checks']=checks;m['not_applicable']=na
+import subprocess
+log=subprocess.run(['git','-C','/repo','log','--format=%h %s'],capture_output=True,text=True).stdout.splitlines()
+m['hooks']['source_commits']=[l.split()[0] for l in reversed(log) if l.split(' ',1)[1].startswith('verif:')]
 m['engines'][0]['serves_properties']=[c['property_id'] for c in checks]
 json.dump(m,open('/verif/MANIFEST.json','w'),indent=1)
 print(len(checks),'checks',len(na),'n/a')
